@@ -2,11 +2,13 @@ package stubx
 
 // C15 — "The stub subscribes exactly the implemented events and dispatches faithfully".
 //
-// A case picks one of the 256 generated plugin types (types_gen.go), a configuration plan
-// (what the plugin's Configure handler returns) and a list of 5..30 requests. The runtime end
-// is a raw peer written here: ttRPC over the multiplexer straight to the stub, the way
-// pkg/adaptation/plugin.go connects, without the adaptation in between, so that what the
-// stub answers is seen unfiltered.
+// A case picks one of the 256 generated plugin types (types_gen.go) and 1..3 sessions of ONE
+// plugin value on ONE stub instance; each session has its own configuration plan (what the
+// plugin's Configure handler returns this time), its own list of requests and its own way of
+// ending (runtime closes / plugin stops). The runtime end is a raw peer written here: ttRPC
+// over the multiplexer straight to the stub, the way pkg/adaptation/plugin.go connects,
+// without the adaptation in between, so that what the stub answers is seen unfiltered. Every
+// session is judged on its own: what a stub answered in an earlier session must not matter.
 
 import (
 	"context"
